@@ -476,6 +476,50 @@ func (x *Exec) localResolver(st *State, fr *Frame, at *ssa.BasicBlock) func(stri
 	return func(name string) (SV, bool) {
 		// phis in the header, then in dominating blocks (nearest first); a suffix __N skips the N nearest
 		// matches (the same-named variable of the N-th enclosing loop)
+		if strings.HasSuffix(name, "__now") {
+			// the value the source variable has at this point: nearest definition or use in dominator order
+			// (a block's debug references come after its phis)
+			name = strings.TrimSuffix(name, "__now")
+			for b := at; b != nil; b = b.Idom() {
+				if b != at {
+					for i := len(b.Instrs) - 1; i >= 0; i-- {
+						dr, ok := b.Instrs[i].(*ssa.DebugRef)
+						if !ok {
+							continue
+						}
+						if id, ok := dr.Expr.(*ast.Ident); ok && id.Name == name {
+							v, ok := fr.vals[dr.X]
+							if !ok && isConstVal(dr.X) {
+								v, ok = fr.get(x, dr.X), true
+							}
+							if ok {
+								if dr.IsAddr {
+									v = st.load(x, v)
+								}
+								return v, true
+							}
+						}
+					}
+				}
+				for _, ins := range b.Instrs {
+					ph, ok := ins.(*ssa.Phi)
+					if !ok {
+						break
+					}
+					if ph.Comment == name {
+						if v, ok := fr.vals[ph]; ok {
+							return v, true
+						}
+					}
+				}
+			}
+			for _, p := range fr.fn.Params {
+				if p.Name() == name {
+					return fr.vals[p], true
+				}
+			}
+			return SV{}, false
+		}
 		skip := 0
 		if i := strings.LastIndex(name, "__"); i > 0 {
 			if n, err := strconv.Atoi(name[i+2:]); err == nil {
